@@ -585,7 +585,14 @@ class ClientH(object):
                 break
         self.frames += 1
         if self.udp.conn is not None:
-            for seq, msg in self.udp.getMessages():
+            # both documented ways of reading: getMessages() (the whole queue), or hasMessages() / getMessage() one at a time
+            if self.frames % 3 == 2:
+                batch = []
+                while self.udp.hasMessages():
+                    batch.append(self.udp.getMessage())
+            else:
+                batch = self.udp.getMessages()
+            for seq, msg in batch:
                 self.received.append((w.clock.t, int(seq), bytes(msg)))
                 w.ledger.delivered(("c", self.laddr), bytes(msg), w.clock.t)
                 for h in w.on_client_message:
@@ -653,7 +660,8 @@ def _retry_name(r):
 class World(object):
     """one history.  Use as a context manager; everything is restored / joined on exit."""
 
-    def __init__(self, seed=0, flavour="udp", mtu=1500, t0=1000.0, token_pool=None, root_key_int=None, configure=None, configure_late=False):
+    def __init__(self, seed=0, flavour="udp", mtu=1500, t0=1000.0, token_pool=None, root_key_int=None, configure=None, configure_late=False,
+                 raise_starting=False):
         self.seed = seed
         self.flavour = flavour
         self.mtu = mtu
@@ -668,6 +676,8 @@ class World(object):
         self.on_server_message = []
         self.on_client_message = []
         self.raise_plan = {}
+        if raise_starting:
+            self.raise_plan["starting"] = [0]      # the handler's starting event raises (the server thread starts inside __enter__)
         self.raised = []
         self.server_actions = []
         self.server_action_errors = []
